@@ -9,6 +9,13 @@ PID = "C03"
 FILE = "pyyeti/srs.py"
 STYPES = SC.FUNCS
 W1 = {SC.Q: 10, SC.T: sp.Rational(1, 1000), SC.w: 300}
+# further regimes: the symbolic result is valid for every input that takes the same branches as the witness, so a branch on the size of wn*dT or on the damping
+# is only seen by a witness on its side.  wn*dT from 1e-6 (sr/fn = 6e6) over 2e-3 and 0.3 to 2.5; light and heavy damping
+REGIMES = [("wn>0", W1),
+           ("wn>0,wn*dT=3e-3,Q=0.6", {SC.Q: sp.Rational(3, 5), SC.T: sp.Rational(1, 1000), SC.w: 3}),
+           ("wn>0,wn*dT=1e-6,Q=25", {SC.Q: 25, SC.T: sp.Rational(1, 100000), SC.w: sp.Rational(1, 10)}),
+           ("wn>0,wn*dT=2.5,Q=2", {SC.Q: 2, SC.T: sp.Rational(1, 1000), SC.w: 2500}),
+           ("wn>0,wn*dT=2e-5,Q=0.51", {SC.Q: sp.Rational(51, 100), SC.T: sp.Rational(1, 50000), SC.w: 1})]
 
 
 def sym_lfilter(b, a, x, axis=0):
@@ -27,14 +34,22 @@ def sym_lfilter(b, a, x, axis=0):
 def coef_items(mod):
     items, paths, outs = [], {}, {}
     for fn in STYPES:
-        for wz in (False, True):
-            reg = alg.Regime("wn==0" if wz else "wn>0", W1)
+        seen = {}
+        for rname, wit in [("wn==0", W1)] + REGIMES:
+            wz = rname == "wn==0"
+            reg = alg.Regime(rname, wit)
             with alg.Shimmed(mod, reg):
                 b, a = getattr(mod, fn)(alg.S(SC.Q), alg.S(SC.T), alg.S(0) if wz else alg.S(SC.w))
             b = [alg.expr_of(x) for x in b]
             a = [alg.expr_of(x) for x in a]
-            outs[(fn, wz)] = (b, a)
             paths["%s[%s]" % (fn, reg.name)] = reg.path
+            if rname in ("wn==0", "wn>0"):
+                outs[(fn, wz)] = (b, a)
+            key = (wz, tuple(map(str, b)), tuple(map(str, a)))
+            if key in seen:
+                paths["%s[%s]" % (fn, reg.name)] = dict(path=reg.path, note="same branches and terms as regime %s: covered by its obligations" % seen[key])
+                continue
+            seen[key] = rname
             for lab, e in SC.obligations(fn, b, a, wz):
                 items.append(("srs.%s[%s]::%s" % (fn, reg.name, lab), e, FILE, "post"))
     # relations between spectra types (property: pvelo = w*reldisp, pacce = w^2*reldisp)
@@ -165,7 +180,7 @@ def run(tier, seed):
                "hat-function argument: a filter that is exact for the triangular input centred on one sample is exact for every "
                "piecewise-linear input starting from rest (linearity + time invariance of lfilter and of the ODE)",
                "Q > 1/2 (underdamped), wn >= 0, dT > 0")
-    run.not_covered += ["rolloff resamplers (fft/lanczos/prefilter/linear) accuracy", "srs_frf, vrs and Miles closed forms",
+    run.not_covered += ["rolloff resamplers (fft/lanczos/prefilter/linear) accuracy", "srs_frf / vrs / Miles closed forms: bounded float oracle only",
                         "column-order / 1-D vs 2-D packaging independence (follows from lfilter acting column-wise: assumed)",
                         "record lengths other than 2 in the end-to-end window/IC check (bounded part)"]
     mod = alg.load_module(report.REPO, FILE)
@@ -206,6 +221,10 @@ def run(tier, seed):
                             evaluations=nev, cases=len(cases), failures=len(fails), undecided=len(und), label="bounded in record length (never counted as proved)"))
     run.bounded.append(dict(name="peak selectors _abs/_pos/_neg/_poss/_negs on 3-sample columns", scope="all 64 value patterns over {-3,-1,2,5}",
                             evaluations=nsel, failures=len(sel_fails), label="bounded"))
+    evf, ff_ = freq_domain_bounded(seed, tier == "quick")
+    run.bounded.append(dict(name="float: srs.vrs (Zvrs, Miles estimate, response PSDs; uniform / logarithmic / two-step / irregular integration grids, Fn on and off the grid, 1-3 "
+                                 "specifications, linear and log-log expansion) and srs.srs_frf (merged frequency vector, response FRFs, peaks, srs_frq=None, scale_by_Q_only) against "
+                                 "brute-force evaluation of the documented closed forms", evaluations=evf, failures=0 if ff_ is None else 1, label="bounded (never counted as proved)"))
     failed = [v for v in vs if v.status == "failed"]
     if failed:
         v = failed[0]
@@ -217,7 +236,118 @@ def run(tier, seed):
                       dict(concrete=fails[0], all=fails[:10]), concrete=True)
     elif sel_fails:
         run.violation("bounded:selectors", "peak selector relation violated", dict(concrete=sel_fails[0]), concrete=True)
+    elif ff_ is not None:
+        run.violation("bounded:" + ff_["what"][:60], ff_["what"], dict(concrete=ff_), concrete=True)
     return run.finish()
+
+
+def freq_domain_bounded(seed, quick):
+    """srs.vrs (and its Miles estimate) and srs.srs_frf against their documented closed forms, evaluated by brute force"""
+    sys.path.insert(0, report.REPO)
+    import warnings
+    from pyyeti import srs as S
+    rng = np.random.RandomState(seed + 303)
+    ev = 0
+    H2 = lambda p_, Q_: (1 + (p_ / Q_) ** 2) / ((1 - p_ ** 2) ** 2 + (p_ / Q_) ** 2)
+    for it in range(12 if quick else 60):
+        Q = float(rng.choice([0.8, 5, 10, 25, 50]))
+        linear = bool(it % 2)
+        npsd = 1 + it % 3
+        brk = np.sort(rng.choice(np.arange(20, 2000, 7.0), 4, replace=False))
+        brk[0], brk[-1] = 20.0, 2000.0
+        lev = 10.0 ** rng.uniform(-3, -1, size=(4, npsd))
+        kind = it % 4
+        if kind == 0:
+            freq = np.arange(20.0, 2000.0, 2.0)                                       # uniform
+        elif kind == 1:
+            freq = np.geomspace(20.0, 2000.0, 400)                                    # logarithmic
+        elif kind == 2:
+            freq = np.hstack((np.arange(20.0, 300.0, 0.5), np.arange(300.0, 2000.0, 5.0)))   # two step sizes
+        else:
+            freq = np.sort(rng.uniform(20, 2000, 500))                                # irregular
+        Fn = None if it % 5 == 0 else np.sort(rng.uniform(60, 900, 4)) + 0.123        # not on the integration grid
+        one_d = npsd == 1 and it % 2 == 0
+        spec = (brk, lev[:, 0]) if one_d else np.column_stack((brk, lev))
+        with warnings.catch_warnings():
+            warnings.simplefilter("ignore")
+            z, zm, resp = S.vrs(spec, freq, Q, linear, Fn=Fn, getresp=True)
+            z_only = S.vrs(spec, freq, Q, linear, Fn=Fn)
+        ev += 1
+        fgrid = np.unique(np.hstack((freq, Fn))) if Fn is not None else freq
+        fn_ = fgrid if Fn is None else Fn
+        # documented expansion of the specification (psd.interp: log-log or linear between break points, zero outside)
+        P = np.zeros((len(fgrid), npsd))
+        for j in range(npsd):
+            if linear:
+                P[:, j] = np.interp(fgrid, brk, lev[:, j], left=0, right=0)
+            else:
+                P[:, j] = np.exp(np.interp(np.log(fgrid), np.log(brk), np.log(lev[:, j])))
+                P[(fgrid < brk[0]) | (fgrid > brk[-1]), j] = 0
+        # integration weights: distance between the midpoints of the neighbouring intervals; the full first and last interval at the two ends
+        w = np.empty(len(fgrid))
+        for i in range(len(fgrid)):
+            w[i] = (fgrid[1] - fgrid[0]) if i == 0 else (fgrid[-1] - fgrid[-2]) if i == len(fgrid) - 1 else (fgrid[i + 1] - fgrid[i - 1]) / 2
+        want = np.array([[np.sqrt(sum(H2(fgrid[i] / f0, Q) * P[i, j] * w[i] for i in range(len(fgrid)))) for j in range(npsd)] for f0 in fn_])
+        Pfn = np.array([[np.interp(f0, fgrid, P[:, j]) for j in range(npsd)] for f0 in fn_])
+        miles = np.sqrt(np.pi / 2 * np.asarray(fn_)[:, None] * Q * Pfn)
+        zz, mm = (np.asarray(z).reshape(len(fn_), -1), np.asarray(zm).reshape(len(fn_), -1))
+        prob = None
+        if np.shape(z) != ((len(fn_),) if one_d else (len(fn_), npsd)):
+            prob = "Zvrs has shape %s" % (np.shape(z),)
+        elif not np.allclose(zz, want, rtol=1e-9, atol=0):
+            prob = "Zvrs differs from sqrt(sum |H(f_i/fn)|^2 PSD(f_i) df_i) (max relative difference %.3g)" % float(np.max(abs(zz - want) / want))
+        elif not np.allclose(mm, miles, rtol=1e-9, atol=1e-300):
+            prob = "the Miles estimate differs from sqrt(pi/2 fn Q PSD(fn))"
+        elif not np.allclose(np.asarray(z_only), np.asarray(z), rtol=1e-12):
+            prob = "Zvrs depends on getresp"
+        elif not (np.array_equal(resp["f"], fgrid) and np.allclose(resp["psd"], np.array([[H2(fgrid / f0, Q) * P[:, j] for j in range(npsd)] for f0 in fn_]), rtol=1e-9, atol=1e-300)):
+            prob = "the response PSD curves differ from |H|^2 PSD"
+        if prob:
+            return ev, dict(what="vrs: " + prob, Q=Q, linear=linear, grid=("uniform", "log", "two-step", "irregular")[kind], Fn=None if Fn is None else Fn.tolist(), npsd=npsd)
+    # srs_frf
+    for it in range(10 if quick else 40):
+        Q = float(rng.choice([5, 10, 30]))
+        nf, ncol = rng.randint(3, 30), 1 + it % 2
+        ff = np.sort(rng.uniform(5, 100, nf))
+        frf = rng.randn(nf, ncol) + 1j * rng.randn(nf, ncol) * (it % 3 == 0)
+        sf = None if it % 4 == 0 else np.sort(rng.uniform(5, 100, rng.randint(1, 6)))
+        with warnings.catch_warnings():
+            warnings.simplefilter("ignore")
+            out = S.srs_frf(frf if ncol > 1 or it % 2 else frf[:, 0], ff, sf, Q, getresp=True)
+            shq = S.srs_frf(frf, ff, sf, Q, scale_by_Q_only=True)
+        ev += 1
+        sh, resp = out[0], out[-1]
+        p_peak = Q * np.sqrt(np.sqrt(1 + 2 / Q ** 2) - 1)
+        sfr = ff / p_peak if sf is None else sf
+        prob = None
+        if sf is None and not (len(out) == 3 and np.allclose(out[1], sfr, rtol=1e-12)):
+            prob = "the SDOF frequencies chosen for srs_frq=None are not frf_frq / p_peak"
+        fq = resp["freq"]
+        A = np.array([np.interp(fq, ff, abs(frf[:, j]), left=0, right=0) for j in range(ncol)]).T
+        if prob is None and not (np.all(np.diff(fq) > 0) and all(np.min(abs(fq - x)) <= 1e-5 for x in np.hstack((ff, p_peak * sfr)))):
+            prob = "resp['freq'] is not the merged frequency vector (every FRF frequency and every p_peak*srs_frq within 1e-5)"
+        if prob is None:
+            for k, f0 in enumerate(sfr):
+                pp = fq / f0
+                Hc = 1 + pp ** 2 / (1 - pp ** 2 + 1j * pp / Q)
+                wantk = Hc[:, None] * A
+                if not np.allclose(resp["frfs"][:, :, k], wantk, rtol=1e-9, atol=1e-12):
+                    prob = "response FRF of the %.4g Hz oscillator differs from (1 + p^2/(1 - p^2 + j p/Q)) |frf|" % f0
+                    break
+                if not np.allclose(sh[k], abs(wantk).max(axis=0), rtol=1e-9):
+                    prob = "sh is not the peak of |X(Omega)| over the analysed frequencies"
+                    break
+        if prob is None:
+            shq_ = shq[0] if isinstance(shq, tuple) else shq
+            fq2 = ff if sf is None else sf
+            if not np.allclose(shq_, Q * np.array([np.interp(fq2, ff, abs(frf[:, j]), left=0, right=0) for j in range(ncol)]).T, rtol=1e-12, atol=0):
+                prob = "scale_by_Q_only: sh != Q |frf|"
+        # the maximising property of p_peak
+        if prob is None and not all(abs(1 + q_ ** 2 / (1 - q_ ** 2 + 1j * q_ / Q)) <= abs(1 + p_peak ** 2 / (1 - p_peak ** 2 + 1j * p_peak / Q)) + 1e-12 for q_ in p_peak * (1 + np.array([-1e-3, 1e-3, -1e-5, 1e-5]))):
+            prob = "p_peak does not maximise |H(p)|"
+        if prob:
+            return ev, dict(what="srs_frf: " + prob, Q=Q, frf_frq=ff.tolist(), srs_frq=None if sf is None else sf.tolist(), ncol=ncol)
+    return ev, None
 
 
 def replay_coef(v):
